@@ -369,6 +369,80 @@ fn ob_c16_filtrate_loop(items: [u8; 3], vs: [u8; 3], len: u8) {
     assert!(filter.input.cancels == trees, "C13 one cancellation per tree discard");
 }
 
+pub(crate) struct MockIn5 {
+    pub items: [u8; 5],
+    pub len: usize,
+    pub pos: usize,
+    pub cancels: u32,
+}
+impl CancelWalk for MockIn5 {
+    fn cancel_walk_tree(&mut self) {
+        self.cancels += 1;
+    }
+}
+impl Iterator for MockIn5 {
+    type Item = P;
+
+    fn next(&mut self) -> Option<P> {
+        if self.pos < self.len {
+            self.pos += 1;
+            Some(P(self.items[self.pos - 1]))
+        }
+        else {
+            None
+        }
+    }
+}
+impl SeparatingFilterInput for MockIn5 {
+    type Feed = F;
+}
+
+//@ob C16.filtrate.loop.len5
+//@ props: C16 C20 C05
+//@ kind: bounded(mock input of at most 5 items; verdict per item symbolic)
+//@ tier: thorough
+//@ unwind: 7
+//@ fns: src/filter.rs::filtrate src/filter.rs::FilterTreeBySubstituent::next
+//@ pre: up to 5 items, each with a symbolic verdict keep / file / tree
+//@ post: as C16.filtrate.loop
+fn ob_c16_filtrate_loop_len5(items: [u8; 5], vs: [u8; 5], len: u8) {
+    vassume!(len <= 5 && vs[0] <= 2 && vs[1] <= 2 && vs[2] <= 2 && vs[3] <= 2 && vs[4] <= 2);
+    let input = MockIn5 { items, len: len as usize, pos: 0, cancels: 0 };
+    let mut idx = 0usize;
+    let mut filter = input.filter_tree_by_substituent(|_sub: P| {
+        let v = verdict(vs[idx]);
+        idx += 1;
+        v
+    });
+    let got = filter.next();
+    let mut first: Option<usize> = None;
+    let mut trees = 0u32;
+    let mut i = 0usize;
+    while i < len as usize {
+        if vs[i] == 0 {
+            first = Some(i);
+            break;
+        }
+        if vs[i] == 2 {
+            trees += 1;
+        }
+        i += 1;
+    }
+    vcover!(len == 5 && first == Some(4));
+    vcover!(len == 5 && first.is_none());
+    match first {
+        Some(i) => {
+            assert!(got == Some(P(items[i])), "C16 filtrate returns the first kept item");
+            assert!(filter.input.pos == i + 1, "C16 exactly the discarded items before it are consumed");
+        },
+        None => {
+            assert!(got.is_none(), "C16 nothing kept => None");
+            assert!(filter.input.pos == len as usize);
+        },
+    }
+    assert!(filter.input.cancels == trees, "C13 one cancellation per tree discard");
+}
+
 //@ob C13.filter.canary
 //@ props: C13
 //@ kind: canary
